@@ -103,3 +103,23 @@ void h_maxalloc(void) {
     if (m == 0 && objects > SIZE_MAX / 15) REACH("object count whose padding would wrap");
     if (m > 0) REACH("positive max allocation");
 }
+
+/* create / destroy.  Precondition: size <= 2^30 (for size > SIZE_MAX - 32 the sum base_alloc + size wraps
+ * and the header memset overflows the block: see native_scratch_create_overflow.c; not reachable from
+ * the public API of this tree, where both creators are static). */
+void h_create(void) {
+    secp256k1_callback cb; INPUT(size_t, size); secp256k1_scratch *s;
+    cb.fn = cb_error; cb.data = NULL; g_error = 0; g_illegal = 0;
+    __CPROVER_assume(size <= MAXS);
+    s = secp256k1_scratch_create(&cb, size);
+    __CPROVER_assert(g_error == 0 && s != NULL, "C19 scratch_create: succeeds without callback when allocation succeeds");
+    if (s != NULL) {
+        __CPROVER_assert(memcmp(s->magic, "scratch", 8) == 0 && s->max_size == size && s->alloc_size == 0, "C19 scratch_create: genuine, empty scratch space of the requested size");
+#ifndef VERIF_NATIVE
+        __CPROVER_assert(s->data == (void *)((char *)s + 32) && (size == 0 || __CPROVER_rw_ok(s->data, size)), "C19 scratch_create: the data block of max_size bytes lies inside the allocation, after the aligned header");
+#endif
+        secp256k1_scratch_destroy(&cb, s);
+        __CPROVER_assert(g_error == 0, "C19 scratch_destroy: no callback for a genuine scratch space");
+        if (size > 1000) REACH("scratch space created and destroyed");
+    }
+}
